@@ -11,5 +11,9 @@ pub mod trace;
 pub mod transport;
 pub mod wiretext;
 pub mod world;
+<<<<<<< HEAD
 pub mod rtcworld;
 pub mod rtcgens;
+=======
+pub mod typed;
+>>>>>>> agent-base
